@@ -18,9 +18,9 @@ FILE_DEPS = {
 }
 
 
-def K(name, file, fn, props, obligation, complete=True, bound='', replay='shim', bin=False, timeout=900):
+def K(name, file, fn, props, obligation, complete=True, bound='', replay='shim', bin=False, timeout=900, module='verif_kani'):
     KANI.append(dict(name=name, file=file, fn=fn, props=props, obligation=obligation, complete=complete,
-                     bound=bound, replay=replay, bin=bin, timeout=timeout))
+                     bound=bound, replay=replay, bin=bin, timeout=timeout, module=module))
 
 
 
@@ -115,7 +115,7 @@ VERUS.append(dict(
 for _l in (0, 1, 9, 10, 11):
     K(f'c10_digest_len{_l}', 'src/message.rs', 'message::digest / EthereumMessage::signing_message', {'C10': Q if _l in (0, 1, 10) else T},
       f'for all messages of {_l} bytes: exactly one Keccak call whose input is 0x19 "Ethereum Signed Message:\\n" ++ decimal length ++ message, and its result is returned (pairing for the unbounded Verus obligation; real std formatting)',
-      complete=False, bound=f'message length {_l}, content symbolic', replay='none')
+      complete=False, bound=f'message length {_l}, content symbolic', replay='none', timeout=420)
 N('nb_eip191_lengths', 'src/message.rs', 'message::digest', {'C10': Q},
   'digest(m) == Keccak-256(0x19 "Ethereum Signed Message:\\n" ++ hand-written decimal length ++ m) with the real formatting and hashing code',
   'native: every length 0..=1100 and 10^k-1, 10^k, 10^k+1 for k = 3..6; three contents each (zeros, 0xff, byte ramp)')
@@ -184,9 +184,9 @@ K('c09_encode_int_range', TD, 'Types::encode_value (intN arm)', {'C09': Q, 'C08'
 K('c09_encode_bytes_n', TD, 'Types::encode_value (bytesN arm)', {'C09': Q, 'C08': Q, 'C17': Q},
   'for N = 1..32 and every payload of 0..40 bytes: Ok iff the payload has exactly N bytes; the word is the payload left-aligned and zero padded (serialization::bytes::deserialize as callee contract)',
   complete=True, replay='none', bound='payload length <= 40 (the comparison is on usize; longer payloads take the same branch)')
-K('c08_encode_bool', TD, 'Types::encode_value (bool arm)', {'C08': Q}, 'bool encodes as the 32-byte word 0 / 1', complete=True)
+K('c08_encode_bool', TD, 'Types::encode_value (bool arm)', {'C08': Q}, 'bool encodes as the 32-byte word 0 / 1', complete=True, module='verif_kani2')
 K('c08_encode_bytes_dynamic', TD, 'Types::encode_value (bytes arm)', {'C08': Q},
-  'dynamic bytes encode as Keccak-256 of exactly the payload (Digest::of as recording callee contract), payloads of 0..40 bytes', complete=False, bound='payload <= 40 bytes', replay='none')
+  'dynamic bytes encode as Keccak-256 of exactly the payload (Digest::of as recording callee contract), payloads of 0..40 bytes', complete=False, bound='payload <= 40 bytes', replay='none', module='verif_kani2')
 N('nb_eip712_type_graphs_vs_reference', TD, 'TypedData (encode_type, struct_hash, encode_value, compute)', {'C08': Q},
   'signing digest, domain separator and message hash equal a reference EIP-712 implementation written from the standard (dependency closure exactly once in name order, primary never repeated, member encodings, arrays, nested structs)',
   'native: 4368 member lists (1..=3 members over 16 kinds incl. struct refs, nested/fixed arrays, recursive P[]) x 5 helper-struct graphs (independent, chains, shared/repeated deps, mutual recursion) = 21840 documents with conforming values')
@@ -198,7 +198,7 @@ N('nb_domain_types_enumerated', TD, 'TypedDataBlob::verify_domain_type / compute
   'native: all 9331 member sequences of length 0..=5 over the five standard names + one foreign name; 14 type substitutions at every position of each of the 31 well-formed domains; missing EIP712Domain (10452 documents)')
 N('nb_member_kind_grammar', TD, 'MemberKind::{from_str, Display}', {'C08': Q, 'C17': Q},
   'member type strings parse to the kind the reference grammar assigns and print back unchanged; 64 array suffixes do not overflow the stack',
-  'native: 11 base words + bytes0..40 + uint/int 0..300 with array-suffix combinations up to depth 3 over 4 sizes (55590 strings) + one depth-64 string')
+  'native: 11 base words + 11 non-ASCII names (Unicode numerics, digits after multi-byte characters) + bytes0..40 + uint/int 0..300 with array-suffix combinations up to depth 3 over 4 sizes (55590 strings) + one depth-64 string')
 
 # ---------------------------------------------------------------------------
 # C04 — account
